@@ -14,6 +14,8 @@ import (
 	"context"
 	"os"
 	"path/filepath"
+	"runtime"
+	"sync/atomic"
 	"time"
 
 	gofile "github.com/mithrandie/go-file/v2"
@@ -86,8 +88,21 @@ func PollErr(ctx context.Context) error {
 	if PollPoints {
 		Point("poll")
 	}
+	// Process mode, after a signal that the application's handler has reported (SignalSeen): the handler's next step is
+	// to cancel the run. On a starved machine the handler goroutine can lose the processor between the two, and the main
+	// goroutine would finish the whole program "before the signal". The first look at the cancellation after a reported
+	// signal therefore waits (once per process, at most 20 s) until the context it looks at is cancelled; a program
+	// that looks at a context the handler does not cancel goes on after that time and is judged by what it does then.
+	if atomic.LoadInt32(&signalsSeen) > 0 && ctx.Err() == nil && atomic.CompareAndSwapInt32(&cancelAwaited, 0, 1) {
+		for start := time.Now(); ctx.Err() == nil && time.Since(start) < 20*time.Second; {
+			runtime.Gosched()
+			time.Sleep(100 * time.Microsecond)
+		}
+	}
 	return ctx.Err()
 }
+
+var cancelAwaited int32
 
 func Stat(name string) (os.FileInfo, error) {
 	op, d := enter("stat", name, "")
